@@ -230,6 +230,19 @@ def find_func(scope: ast.AST, name: str, raw: bool = False) -> ast.FunctionDef |
     return None
 
 
+def dfs_order(fn: ast.AST) -> dict[int, int]:
+    """id(node) -> position in source order of the (normal-form) function: line numbers are not an
+    order once helpers have been inlined"""
+    out: dict[int, int] = {}
+
+    def walk(n):
+        out[id(n)] = len(out)
+        for c in ast.iter_child_nodes(n):
+            walk(c)
+    walk(fn)
+    return out
+
+
 def subst_locals(fn: ast.AST, e: ast.AST, depth: int = 3, allow_calls: bool = False) -> ast.AST:
     """`e` with local names replaced by their definition when the name is assigned exactly once in `fn`
     (a plain `x = <expr>` / `x: T = <expr>`), is not a parameter, and the definition contains no call:
